@@ -9,13 +9,17 @@ paths
   stapled    AsyncStapledStreamTransport(send, recv).aclose()              params: send/recv = {steps, err}
   endpoint   AsyncStreamEndpoint(transport, protocol).aclose()             params: inner = {steps, err}
   tls        AsyncTLSStreamTransport.aclose() over a pipe to a real TLS peer
-             params: sc (standard_compatible), peer ("reply"|"silent"|"first"|"drop"), shutdown_timeout (units),
-                     inner = {steps, err}, send_err (n-th send_all of the wrapped transport after the handshake fails),
-                     recv_err (likewise recv_into)
+             params: sc (standard_compatible), peer ("reply"|"silent"|"first"|"firstgone"|"drop"), shutdown_timeout
+                     (units; 0 is legal: the scope is expired on entry and its cancellation is delivered at the first
+                     suspension - if there is one), inner = {steps, err}, send_err (n-th send_all of the wrapped transport
+                     after the handshake fails), recv_err (likewise recv_into),
+                     read_eof (the application has READ the peer's close_notify - recv() returned b"" - before aclose():
+                     unwrap() then completes at once), sync_send (send_all of the wrapped transport does not suspend)
   tlswrap    AsyncTLSStreamTransport.wrap() itself is the operation        params: hs ("ok"|"garbage"|"eof"|"silent"),
                      handshake_timeout (units), inner = {steps, err}
   tcpclient  AsyncTCPNetworkClient.aclose() (in-memory backend)           params: inner = {steps, err}, busy (another task
                      is inside send_packet(), parked in the transport, holding the send lock)
+  tcpconnect AsyncTCPNetworkClient.aclose() while the CONNECTION ATTEMPT is still in progress (vlib/c14_conn.py)
   srvclient  server-side client: the request handler calls client.aclose() (real AsyncTCPNetworkServer, in-memory
              backend); the cancellation hits the client task                params: inner = {steps, err}, busy
 
@@ -114,6 +118,14 @@ async def setup_tls(p: dict) -> Setup:
     peer.go_after.set()
     for _ in range(3):
         await asyncio.sleep(0)
+    if p.get("read_eof"):
+        # the application reads until the end of the stream first (the ordinary "peer hangs up first" sequence)
+        try:
+            got = await tls.recv(1024)
+            s.pre_lines = ["pre-read " + ("eof" if not got else f"data:{len(got)}")]
+        except Exception as e:  # noqa: BLE001
+            s.pre_lines = ["pre-read " + kind(e)]
+    a.sync_send = bool(p.get("sync_send"))
     a.nsend = a.nrecv = 0
     a.send_error_at = p.get("send_err", 0)
     a.recv_error_at = p.get("recv_err", 0)
@@ -222,14 +234,20 @@ async def setup_sockadapter(p: dict) -> Setup:
     return s
 
 
+async def setup_tcpconnect(p: dict) -> Setup:
+    from vlib import c14_conn
+
+    return await c14_conn.setup(p, Setup())
+
+
 SETUPS = {"stapled": setup_stapled, "endpoint": setup_endpoint, "tls": setup_tls, "tlswrap": setup_tlswrap,
-          "tcpclient": setup_tcpclient, "sockadapter": setup_sockadapter}
+          "tcpclient": setup_tcpclient, "sockadapter": setup_sockadapter, "tcpconnect": setup_tcpconnect}
 
 
 def innermost_lib(chain: tuple[str, ...]) -> str:
     """innermost coroutine of the chain that belongs to EasyNetwork (not to the harness transports / asyncio)"""
     own = ("MemTransport.", "PipeEnd.", "sleep", "__sleep0", "Event.wait", "TLSPeer.", "parked_send", "Lock.", "Condition.",
-           "setup_", "run_case", "run_srvclient")
+           "setup_", "run_case", "run_srvclient", "setup.", "SlowBackend.")
     for q in reversed(chain):
         if not q.startswith(own) and not q.startswith("setup_"):
             return q
@@ -257,8 +275,11 @@ def run_case(case: dict) -> tuple[list[str], dict]:
             outcome = kind(t.exception())
         else:
             outcome = "ok"
+        if getattr(s, "outcome_fix", None) is not None:
+            outcome = s.outcome_fix(outcome)
         flags = {n: int(tr.closed) for n, tr in s.inners.items()}
         closing = int(bool(s.closing()))
+        lines.extend(getattr(s, "pre_lines", []))
         lines.append(f"steps {inj.n}")
         if inj.injected_at is not None:
             lines.append("at " + innermost_lib(inj.injected_at))
@@ -269,6 +290,8 @@ def run_case(case: dict) -> tuple[list[str], dict]:
         if s.after_first is not None:
             await s.after_first()
         lines.append("inner-later " + " ".join(f"{n}={int(tr.closed)}" for n, tr in s.inners.items()))
+        if getattr(s, "later_lines", None) is not None:
+            lines.extend(s.later_lines())
         # a second close
         t0 = loop.time()
         if not aux["must_close"]:
@@ -320,6 +343,12 @@ def run_case(case: dict) -> tuple[list[str], dict]:
                             if j < len(inj.times) and inj.times[j] > inj.times[j - 1]
                             and any(q.endswith("_retry_ssl_method") for q in inj.chains[j - 1])
                             and j != case.get("step")]
+    if (case["path"] == "tls" and p.get("sc", True) and float(p.get("shutdown_timeout", 30)) == 0 and inj.chains
+            and case.get("step") != 1 and 1 not in aux["timeout_steps"]
+            and any(q.endswith(("_retry_ssl_method", "__flush_pending_writes")) for q in inj.chains[0])):
+        # shutdown_timeout=0: the scope is expired on entry, its cancellation is delivered at the FIRST suspension inside it
+        # (no virtual time passes)
+        aux["timeout_steps"].insert(0, 1)
     return lines, aux
 
 
